@@ -584,6 +584,9 @@ def m_str(it, v=''):
         if not (isinstance(r, str) or (is_sym(r) and r.k == 'str')):
             raise RaiseEx(TypeError('__str__ returned non-string'))
         return r
+    if isinstance(v, BaseException) and getattr(v, '_pyvc_msg', None) is not None and \
+            (f is None or not is_repo_func(f)):
+        return v._pyvc_msg
     if isinstance(v, BaseException) and deep_has_sym(v.args):
         return fresh('str', 'excmsg')
     if deep_has_sym(v):
